@@ -1,46 +1,31 @@
 from vlib import *
-import sys
-sys.path.insert(0, VERIF + '/e2')
-import fvm
 
 INFO = dict(
  functions=['fiber_semaphore_init', 'fiber_semaphore_wait', 'fiber_semaphore_trywait', 'fiber_semaphore_post', 'fiber_semaphore_post_internal',
-            'fiber_semaphore_getvalue', 'fiber_manager_wait_in_mpmc_queue', 'fiber_manager_wake_from_mpmc_queue', 'fiber_manager_get_mpmc_node',
-            'fiber_manager_get_hazard_record', 'mpmc_fifo_push', 'mpmc_fifo_trypop', 'hazard_pointer_using', 'hazard_pointer_free',
-            'lockfree_ring_buffer_trypop', 'fiber_manager_do_maintenance'],
- stubs=['contract kernel (see C03)', 'the node pool fiber_free_mpmc_nodes is pre-created with 2 slots (instead of the lazily created 1024-slot ring)'],
- assumptions=['assume-guarantee: the runtime contract of C01/C02 holds for yield/schedule', 'x86-TSO mapping of atomics; -O1 IR of clang-14'],
- bounds='initial value symbolic in {0,1}; 1 poster + 1-2 waiters (the second optionally trywait); spin bound 1; all interleavings (SC)',
- outside='more posters/waiters, larger initial values, hazard-pointer scans (retire threshold is not reached within the bound)')
-
-
-def _spec(nf):
-    s = fvm.kspec(nf)
-    s['site_types'].update({'hazard_pointer_thread_record_create_and_push#calloc0': '%struct.hazard_pointer_thread_record',
-                            'fiber_manager_\\w+#malloc\\d+': '%struct.mpmc_fifo_node', 'vm_init#malloc\\d+': '%struct.mpmc_fifo_node'})
-    s['excl'] += [['create_and_push#calloc0', [3, 4, 5, 6], list(range(1, nf + 1))]]
-    s['pools'] = [['fiber_manager_\\w+#malloc\\d+', t, 1, 48] for t in range(1, nf + 1)]
-    return s
-
-
-def _aspec(nf):
-    s = _spec(nf)
-    return s
+            'fiber_semaphore_getvalue'],
+ stubs=['every atomic operation of fiber_semaphore.c on semaphore->counter -> the same operation preceded by arbitrary interference '
+        '(macro redirect of the <stdatomic.h> generics, library untouched): other fibers may have replaced the counter by any value in '
+        '(-2^30, 2^30); a weak compare-exchange may fail spuriously',
+        'fiber_manager_wait_in_mpmc_queue: records the queue and returns (resumption is the waking post\'s step)',
+        'fiber_manager_wake_from_mpmc_queue(manager, fifo, count): records the queue; returns 0 or 1 for count == 0 (0 = the announced waiter is '
+        'not enqueued yet) and 1..count otherwise',
+        'fiber_yield, fiber_manager_get, fiber_manager_get_mpmc_node, fiber_manager_get_hazard_record: trivial'],
+ assumptions=['rely/guarantee: the wait queue hands every fiber pushed by fiber_manager_wait_in_mpmc_queue to exactly one '
+              'fiber_manager_wake_from_mpmc_queue (that is property C13 - the real mpmc_fifo over hazard pointers - which this framework could '
+              'NOT decide; it is assumed here, not proved)',
+              'counter values stay inside (-2^30, 2^30)'],
+ bounds='one operation from an arbitrary counter value, arbitrary interference before each of its atomic steps, at most MAX_OPS (quick 4, '
+        'thorough 7) atomic steps per operation (bounds the retries of trywait/post under interference)',
+ outside='the mpmc wait queue and hazard pointers (C13, not decided): a fiber lost or duplicated by the queue is not visible here; the '
+         'concurrent whole-semaphore scenarios (e2/harness/sem.c) had no verdict and are not part of the claim; liveness of the post retry '
+         'loop while an announced waiter never enqueues; more than MAX_OPS retries; fiber_semaphore_destroy')
 
 
 def plan(tier, ctx):
-    src = ['fiber_semaphore.c', 'fiber_mutex.c'] + fvm.KERNEL_SRCS
-    j = []
-    A = ['ABSTRACT_QUEUE']
-    j += fvm.config('C06', 'semA_1w1p', 'sem.c', 2, 4, 'sc', srcs=src, defines=A + ['NWAIT=1', 'NPOST=1', 'V0MAX=1', 'TRYLAST=0'], spec=_aspec(2), bounds='abstract wait queue; 1 waiter, 1 poster, v0 in {0,1}', timeout=1800)
-    j += fvm.config('C06', 'semA_try1p', 'sem.c', 3, 4, 'sc', srcs=src, defines=A + ['NWAIT=2', 'NPOST=1', 'V0MAX=0', 'TRYLAST=1'], spec=_aspec(3), bounds='abstract wait queue; 1 waiter + 1 trywait, 1 poster, v0 = 0', timeout=1800)
-    j += fvm.config('C06', 'semA_2w1p', 'sem.c', 3, 4, 'sc', srcs=src, defines=A + ['NWAIT=2', 'NPOST=1', 'V0MAX=1', 'TRYLAST=0'], spec=_aspec(3), bounds='abstract wait queue; 2 waiters, 1 poster, v0 in {0,1}', timeout=2400, required=False)
-    if tier == 'thorough':
-        j += fvm.config('C06', 'semA_1w2p', 'sem.c', 3, 4, 'sc', srcs=src, defines=A + ['NWAIT=1', 'NPOST=2', 'V0MAX=1', 'TRYLAST=0'], spec=_aspec(3), bounds='abstract wait queue; 1 waiter, 2 posters', timeout=3000, required=False)
-        j += fvm.config('C06', 'semA_2w2p', 'sem.c', 4, 4, 'sc', srcs=src, defines=A + ['NWAIT=2', 'NPOST=2', 'V0MAX=1', 'TRYLAST=0'], spec=_aspec(4), bounds='abstract wait queue; 2 waiters, 2 posters', timeout=3600, required=False, mem_gb=24)
-    return j
-    j += fvm.config('C06', 'sem_1w1p', 'sem.c', 2, 4, 'sc', srcs=src, defines=['NWAIT=1', 'NPOST=1', 'V0MAX=1', 'TRYLAST=0'], spec=_spec(2), bounds='1 waiter, 1 poster, v0 in {0,1}', timeout=1800)
-    j += fvm.config('C06', 'sem_try1p', 'sem.c', 3, 4, 'sc', srcs=src, defines=['NWAIT=2', 'NPOST=1', 'V0MAX=0', 'TRYLAST=1'], spec=_spec(3), bounds='1 waiter + 1 trywait, 1 poster, v0 = 0', timeout=1800, required=False)
-    if tier == 'thorough':
-        j += fvm.config('C06', 'sem_2w1p', 'sem.c', 3, 4, 'sc', srcs=src, defines=['NWAIT=2', 'NPOST=1', 'V0MAX=1', 'TRYLAST=0'], spec=_spec(3), bounds='2 waiters, 1 poster, v0 in {0,1}', timeout=3600, required=False, mem_gb=24)
-    return j
+    src = [VERIF + '/e1/C06/sem_e1.c']
+    mo = 4 if tier == 'quick' else 7
+    jobs = []
+    for h in ('h_wait', 'h_trywait', 'h_post_internal', 'h_post'):
+        jobs += pair('e1.sem.' + h, src, h, unwind=mo + 2, timeout=600, defines=['MAX_OPS=%d' % mo],
+                     meta={'engine': 'E1 cbmc-src', 'bounds': 'arbitrary counter in (-2^30, 2^30), arbitrary interference, <= %d atomic steps' % mo})
+    return jobs
